@@ -340,7 +340,7 @@ func c04Host(a [][]byte) *Case {
 	var pool string
 	bub := inBubble(func() {
 		hc := &fasthttp.HostClient{Addr: "c04.test:80", Dial: w.dial, StreamResponseBody: stream, MaxResponseBodySize: maxBody,
-			MaxConns: 8, MaxIdleConnDuration: 1000 * time.Hour}
+			MaxConns: 8, MaxIdleConnDuration: time.Hour}
 		if lifo {
 			hc.ConnPoolStrategy = fasthttp.LIFO
 		}
@@ -385,7 +385,7 @@ func c04Host(a [][]byte) *Case {
 		w.mu.Unlock()
 		pool = strings.Join(open, ".")
 		hc.CloseIdleConnections()
-		advance(3000 * time.Hour)
+		advance(3 * time.Hour)
 	})
 	impl := strings.Join(obs, ";")
 	cfg := []byte{c04b2b(stream), byte(maxBody >> 8), byte(maxBody), c04b2b(lifo), 1, 1}
@@ -397,12 +397,17 @@ func c04Host(a [][]byte) *Case {
 			streamed = true
 		}
 	}
+	dirty := w.dirty
+	w = nil // the world (connections) must be collectable
+	for _, c := range calls {
+		c.gotBody = nil
+	}
 	return &Case{Lines: []string{Line("clientconn", args...)}, Impl: impl + ";open=" + pool, Nontrivial: len(calls) >= 2, Tags: []string{"host", map[bool]string{true: "early-close", false: "no-early-close"}[streamed]},
 		Judge: func(r []string) Verdict {
 			if len(viol) > 0 {
 				extra := ""
-				if len(w.dirty) > 0 {
-					extra = " | " + w.dirty[0]
+				if len(dirty) > 0 {
+					extra = " | " + dirty[0]
 				}
 				return Verdict{VSpec, viol[0][0], viol[0][1] + extra + " | trace: " + impl}
 			}
@@ -494,7 +499,12 @@ func c04Pipe(a [][]byte) *Case {
 	if len(a) < 2 || len(a[0]) < 1 {
 		return nil
 	}
-	timed := a[0][0]%2 == 1 // batches with delays and timeouts: monitor only
+	// mode 0: plain batches (compared with the pipelined-reading model); 1: slow answers and call timeouts;
+	// 2, 3: additionally PipelineClient.ReadTimeout = 4s, so an answer that starts later than that makes the reader give
+	// the connection up (the late response must not be handed to a later request); 3 issues a second wave of
+	// requests after the late answers. Modes 1..3 are judged by the monitor only.
+	mode := int(a[0][0]) % 4
+	timed := mode != 0
 	type pcall struct {
 		tag     int
 		method  int // 0 GET 1 POST 2 HEAD
@@ -511,6 +521,9 @@ func c04Pipe(a [][]byte) *Case {
 	var viol [][2]string
 	bub := inBubble(func() {
 		pc := &fasthttp.PipelineClient{Addr: "p04.test:80", MaxConns: 1, MaxPendingRequests: 16, MaxIdleConnDuration: 1000 * time.Second, Logger: nopLogger{}}
+		if mode >= 2 {
+			pc.ReadTimeout = 4 * time.Second
+		}
 		n := 0
 		pc.Dial = func(string) (net.Conn, error) {
 			n++
@@ -526,6 +539,14 @@ func c04Pipe(a [][]byte) *Case {
 			}
 			calls = append(calls, c)
 			go func() {
+				defer func() {
+					if e := recover(); e != nil {
+						mu.Lock()
+						viol = append(viol, [2]string{"impl-panic", fmt.Sprintf("pipelined call %d: panic inside fasthttp: %v", c.tag, e)})
+						c.done, c.err = true, errors.New("panic")
+						mu.Unlock()
+					}
+				}()
 				req := fasthttp.AcquireRequest()
 				resp := fasthttp.AcquireResponse()
 				req.SetRequestURI(fmt.Sprintf("http://p04.test/p?t=%d&d=%d", c.tag, c.delay))
@@ -542,6 +563,9 @@ func c04Pipe(a [][]byte) *Case {
 				mu.Unlock()
 			}()
 			settle() // the request is queued (and written) before the next one starts: write order = issue order
+			if mode == 3 && i+1 == (len(a[1])/4)*2 {
+				advance(12 * time.Second) // second wave: issued after the late answers of the first
+			}
 		}
 		advance(1500 * time.Second)
 		advance(1500 * time.Second)
@@ -632,7 +656,7 @@ func c04Conc(a [][]byte) *Case {
 	bub := inBubble(func() {
 		root := NewRand(seed)
 		cl := &fasthttp.Client{StreamResponseBody: stream, MaxResponseBodySize: maxBody, MaxConnsPerHost: 2 + root.Intn(2),
-			MaxConnWaitTimeout: 100 * time.Hour, MaxIdleConnDuration: 1000 * time.Hour,
+			MaxConnWaitTimeout: 100 * time.Hour, MaxIdleConnDuration: time.Hour,
 			Dial: func(addr string) (net.Conn, error) {
 				w := worlds[addr]
 				if w == nil {
@@ -653,6 +677,13 @@ func c04Conc(a [][]byte) *Case {
 			wg.Add(1)
 			go func() {
 				defer wg.Done()
+				defer func() {
+					if e := recover(); e != nil {
+						mu.Lock()
+						viol = append(viol, [2]string{"impl-panic", fmt.Sprintf("panic inside fasthttp: %v", e)})
+						mu.Unlock()
+					}
+				}()
 				for _, t := range tags {
 					time.Sleep(time.Duration(r.Intn(2000)) * time.Millisecond)
 					c := c04Decode(r.Bytes(9, nil), stream, maxBody)
@@ -673,7 +704,7 @@ func c04Conc(a [][]byte) *Case {
 		}
 		wg.Wait()
 		cl.CloseIdleConnections()
-		advance(3000 * time.Hour)
+		advance(3 * time.Hour)
 	})
 	impl := fmt.Sprintf("calls=%d ok=%d", ncalls, nok)
 	return &Case{Impl: impl, Nontrivial: ncalls >= 4, Tags: []string{"conc"},
@@ -693,7 +724,7 @@ func init() {
 		ID: "C04",
 		Rule: "host: 2..10 sequential tagged calls on a HostClient (GET/POST/HEAD/PUT x body 0..5000 x server: full keep-alive | full close | cut inside head | cut after k body bytes | stall inside head | stall after k body bytes (tail arrives later) " +
 			"x request Connection: close x streamed body closed after 0|1|half|k|all bytes), StreamResponseBody with MaxResponseBodySize 0|64|200, LIFO/FIFO; " +
-			"pipe: 2..12 pipelined GET/POST/HEAD requests written in issue order, answered in order, with and without slow answers and timeouts; " +
+			"pipe: 2..12 pipelined GET/POST/HEAD requests written in issue order, answered in order, with and without slow answers, call timeouts and a PipelineClient.ReadTimeout shorter than the slowest answers (late responses), optionally a second wave of requests after the late answers; " +
 			"conc: 3..6 concurrent callers on a Client over two hosts with the same scripts; " +
 			"bodies are made of tag-carrying well-formed responses written in record-aligned segments; non-trivial = at least 2 calls (4 for conc); distinct = distinct input",
 		Assumptions: []string{
@@ -730,7 +761,7 @@ func init() {
 				emit("host", cfg, script)
 			}
 			for i := 0; i < nPipe; i++ {
-				emit("pipe", []byte{byte(r.Intn(2))}, r.Bytes(2*(2+r.Intn(11)), nil))
+				emit("pipe", []byte{byte(r.Intn(4))}, r.Bytes(2*(2+r.Intn(11)), nil))
 			}
 			for i := 0; i < nConc; i++ {
 				emit("conc", []byte{byte(r.Intn(4)), byte(r.Intn(4))}, r.Bytes(4, nil))
